@@ -322,6 +322,7 @@ class TraceView:
     def __init__(self, steps):
         self.first = {}
         self.last = {}
+        self.bin = {}
         for s in steps or []:
             if s.get('stepType') != 'assignment':
                 continue
@@ -329,11 +330,20 @@ class TraceView:
             v = s.get('value', {})
             if lhs is None:
                 continue
-            val = v.get('data', v.get('name'))
-            if val is None and 'elements' in v:
-                val = v
-            self.first.setdefault(lhs, val)
-            self.last[lhs] = val
+            self._put(lhs, v)
+
+    def _put(self, lhs, v):
+        val = v.get('data', v.get('name'))
+        self.first.setdefault(lhs, val)
+        self.last[lhs] = val
+        if 'binary' in v:
+            self.bin.setdefault(lhs, v['binary'])
+        for m in v.get('members', []) or []:
+            if isinstance(m, dict) and 'value' in m:
+                self._put('%s.%s' % (lhs, m.get('name')), m['value'])
+        for e in v.get('elements', []) or []:
+            if isinstance(e, dict) and 'value' in e:
+                self._put('%s[%s]' % (lhs, e.get('index')), e['value'])
 
     def num(self, name, default=None):
         v = self.first.get(name)
@@ -345,6 +355,10 @@ class TraceView:
         if str(v) in ('TRUE', 'FALSE'):
             return int(str(v) == 'TRUE')
         return default
+
+    def bits(self, name, default=None):
+        b = self.bin.get(name)
+        return int(b, 2) if b else default
 
     def obj_of(self, param):
         for key in (param + '_wrapper', param):
